@@ -262,6 +262,7 @@ pub fn gen_chain_cfg(seed: u64, o: &SwarmOpts) -> ChainCfg {
         n_calls: num_tune + num_draws,
         keep_evals: false,
         max_evals: 0,
+        reinit_at: None,
     }
 }
 
